@@ -47,9 +47,9 @@ def depol_channel(rho, n, qubits, p):
     return (1 - p) * rho + p * acc / (4 ** k)
 
 
-def noisy_density(gates_j, n, errors):
-    """errors: {gate name: [(type, params), ...]} in insertion order."""
-    psi = R.zero_state(n)
+def noisy_density(gates_j, n, errors, init=None):
+    """errors: {gate name: [(type, params), ...]} in insertion order; init: the caller's start vector (reference order) or None."""
+    psi = R.zero_state(n) if init is None else np.asarray(init, dtype=complex)
     rho = np.outer(psi, psi.conj())
     for j in gates_j:
         g = C.j_to_ref(j)
@@ -201,8 +201,16 @@ class NoiseWorld(World):
             if gates:
                 return {"k": "sim", "b": bi, "gates": gates, "n": n}
         gates = self._gen_circuit(rng, n, noisy)
+        # the caller's start vector (seeded C19-E): a third of the sim / expval requests carry one, and half of those repeat the
+        # circuit this backend ran last, so that one backend object sees the same program from different start states
+        init = None
+        if (r < 0.72 or r >= 0.82) and rng.random() < 0.35:
+            last = be.get("last")
+            if last is not None and rng.random() < 0.5:
+                gates, n = [list(j) for j in last[0]], last[1]
+            init = C.gen_state(rng, n)
         if r < 0.72:
-            return {"k": "sim", "b": bi, "gates": gates, "n": n}
+            return {"k": "sim", "b": bi, "gates": gates, "n": n, "init": init}
         if r < 0.82:
             for _ in range(rng.randint(1, 2)):
                 gates.insert(rng.randint(0, len(gates)), ["MEASURE", [rng.randrange(n)], None, "", False])
@@ -212,7 +220,7 @@ class NoiseWorld(World):
             qs = sorted(rng.sample(range(n), rng.randint(1, n)))
             terms.append([[[q, rng.choice("XYZ")] for q in qs], round(rng.uniform(-1, 1), 3) or 0.4])
         terms.append([[], 0.3])
-        return {"k": "expval", "b": bi, "gates": gates, "n": n, "terms": terms}
+        return {"k": "expval", "b": bi, "gates": gates, "n": n, "terms": terms, "init": init}
 
     # -- execution ----------------------------------------------------------------------------------------------------
     def _model_valid(self, errors):
@@ -331,6 +339,14 @@ class NoiseWorld(World):
             ctx.outcome(k, "skipped-invalid-model")
             return V
         b, ns = be["b"], be["ns"]
+        init_ref = C.state_from_j(op["init"]) if op.get("init") is not None and len(op["init"]) == 2 ** n else None
+        kw_init, init_keep = {}, None
+        if k in ("sim", "expval"):
+            be["last"] = (gates_j, n)
+            if init_ref is not None:
+                kw_init = {"initial_statevector": np.array(init_ref, dtype=np.complex128)}     # cirq: qubit 0 = most significant bit
+                init_keep = np.array(init_ref, copy=True)
+                ctx.probe("C19.caller_start_vector")
         if k == "simm":
             prep = self._simm_run(op, b, ns, sems, circ)
             if isinstance(prep, list):
@@ -339,7 +355,7 @@ class NoiseWorld(World):
             return self._settle(be, verdicts)
         if k == "sim":
             try:
-                f, _ = b.simulate(circ)
+                f, _ = b.simulate(circ, **kw_init)
             except Exception as ex:
                 ctx.outcome(k, "refused-unexpectedly")
                 return [Violation("C19", "unexpected-refusal", "simulate(noisy)", {"exception": repr(ex)[:200], "op": op, "errors": me["errors"]})]
@@ -347,7 +363,9 @@ class NoiseWorld(World):
             ctx.check("C19.sampled")
             self.sig.add(("sim", n, ns, len(me["errors"])))
             f = {kk: float(v) for kk, v in f.items()}
-            verdicts = {name: self._judge_sim(f, n, ns, gates_j, errs, b) for name, errs in sems}
+            if init_keep is not None and not np.array_equal(kw_init["initial_statevector"], init_keep):
+                return [Violation("C19", "caller-start-vector-modified", "simulate(noisy)", {"op": op})]
+            verdicts = {name: self._judge_sim(f, n, ns, gates_j, errs, b, init_ref) for name, errs in sems}
             return self._settle(be, verdicts)
         if k == "expval":
             from tangelo.toolboxes.operators import QubitOperator
@@ -364,7 +382,7 @@ class NoiseWorld(World):
             qop = QubitOperator()
             qop.terms = dict(val)
             try:
-                got = b.get_expectation_value(qop, circ)
+                got = b.get_expectation_value(qop, circ, **kw_init)
             except Exception as ex:
                 ctx.outcome(k, "refused-unexpectedly")
                 return [Violation("C19", "unexpected-refusal", "get_expectation_value(noisy)", {"exception": repr(ex)[:200], "op": op, "errors": me["errors"]})]
@@ -373,7 +391,7 @@ class NoiseWorld(World):
             self.sig.add(("expval", n, ns, len(val)))
             verdicts = {}
             for name, errs in sems:
-                rho = noisy_density(gates_j, n, errs)
+                rho = noisy_density(gates_j, n, errs, init_ref)
                 exact = float(sum(c * np.trace(rho @ M.dense_word(t, n)).real for t, c in val.items()))
                 nz = [(t, c) for t, c in val.items() if t]
                 L = math.log(2 * max(1, len(nz)) / 1e-10)
@@ -417,8 +435,8 @@ class NoiseWorld(World):
                     names[0], "followed after attachment" if names[0] == "live" else "as attached")
         return V
 
-    def _judge_sim(self, f, n, ns, gates_j, errs, b):
-        rho = noisy_density(gates_j, n, errs)
+    def _judge_sim(self, f, n, ns, gates_j, errs, b, init=None):
+        rho = noisy_density(gates_j, n, errs, init)
         diag = {R.bitstr(i, n): float(rho[i, i].real) for i in range(2 ** n) if rho[i, i].real > 1e-13}
         if not D.is_shot_histogram(f, ns) or any(len(kk) != n for kk in f):
             return [Violation("C19", "not-a-shot-histogram", "simulate(noisy)", {"frequencies": dict(list(f.items())[:6]), "n_shots": ns})]
